@@ -61,7 +61,7 @@ def bounds(tier):
         "max_len_2x3_letters_rectangular_matrix": L[(2, 3)],
         "max_len_code_width_combinations": L["width"],
         "matrix_families": FAMS + RECT_FAMS,
-        "matrix_variants_per_family": 1 if tier == "quick" else 2,
+        "matrix_variants_per_family": 1 if tier == "quick" else "2 (3-letter setup: 1)",
         "gap_penalties": [I.gap_json(g) for g in I.GAPS],
         "refused_gap_penalties": [I.gap_json(g) for g in BAD_GAPS],
         "modes": list(MODES),
@@ -77,9 +77,11 @@ def _variants(tier, seed):
 def shards(tier, seed):
     L = _lens(tier)
     out = []
-    for variant in _variants(tier, seed):
+    for vi, variant in enumerate(_variants(tier, seed)):
         embed = (seed + variant) % 4
         for (k1, k2), fams in (((2, 2), FAMS), ((3, 3), FAMS), ((2, 3), RECT_FAMS)):
+            if (k1, k2) == (3, 3) and vi > 0:
+                continue  # the 3-letter space is the largest; one variant per run
             ln = L[(k1, k2)]
             npairs = (sum(k1**i for i in range(ln + 1))) * (sum(k2**i for i in range(ln + 1)))
             parts = max(1, round(npairs / 400))
@@ -154,14 +156,16 @@ def check_call(ctx, env, l1, l2, gap, mode, max_number, key=None, either=False):
     s1, s2 = env.seq(1, l1), env.seq(2, l2)
     if key is None:
         key = Key(c1, c2, env.mat, gap, mode)
-    case = {"kind": "opt", **env.describe(), "s1": list(l1), "s2": list(l2), "gap": I.gap_json(gap),
-            "mode": mode, "max_number": max_number}
+    def mkcase():
+        return {"kind": "opt", **env.describe(), "s1": list(l1), "s2": list(l2), "gap": I.gap_json(gap),
+                "mode": mode, "max_number": max_number}
+
     cls = "%s|%s" % (mode, I.gap_class(gap))
     if either:
         cls += "|empty_sequence"
 
     def viol(mode_, what, expected=None, observed=None):
-        ctx.violation("align_optimal|%s|%s" % (mode_, cls), what, case, expected, observed)
+        ctx.violation("align_optimal|%s|%s" % (mode_, cls), what, mkcase(), expected, observed)
 
     ctx.ev(1, 0)
     try:
@@ -243,16 +247,17 @@ def check_call(ctx, env, l1, l2, gap, mode, max_number, key=None, either=False):
             extra = sorted(got - exp)[:3]
             ctx.violation("align_optimal|strengthening_all_optima_%s|%s" % ("missing" if miss else "extra", cls),
                           "returned set differs from the set of all optimal alignments (stronger than the statement)",
-                          case, [[list(c) for c in t] for t in miss], [[list(c) for c in t] for t in extra])
+                          mkcase(), [[list(c) for c in t] for t in miss], [[list(c) for c in t] for t in extra])
         elif len(exp) > 1000 and not (got <= exp):
             ctx.violation("align_optimal|strengthening_all_optima_extra|%s" % cls,
-                          "returned alignment outside the set of optimal alignments", case, None, None)
+                          "returned alignment outside the set of optimal alignments", mkcase(), None, None)
         ctx.count("optimal_sets_compared")
     nontriv = n > 0 and m > 0 and bool(nonempty_seen) and key.tie_or_gap
     ctx.ev(0, 1 if nontriv else 0)
-    ctx.outcome((key.opt, len(res), traces[0], traces[-1]))
+    if max_number == 1000:
+        ctx.outcome((key.opt, len(res), traces[0], traces[-1]))
     if nontriv and len(ctx.samples) < 2 and len(res) >= 2 and max_number == 1000:
-        ctx.sample({**case, "optimum": key.opt, "returned": [[list(c) for c in t] for t in traces][:4],
+        ctx.sample({**mkcase(), "optimum": key.opt, "returned": [[list(c) for c in t] for t in traces][:4],
                     "n_optimal_alignments_model": len(key.optset)})
     return key
 
